@@ -22,8 +22,8 @@ The model mirrors what the code *does*, including:
     which case it is a lookup only (`record_type_col and (table_name, record_type_col) not in
     reference_fields`, repaired by fix 8e9f95d; before, it was listed twice);
   * `mappings[step_name] = mapping` is a dict store: equal step names overwrite (keeping the position);
-  * `indexed_by_sobject[target_table]` raises `KeyError` when a lookup targets a table that has no
-    load step (hidden `__` tables: D14);
+  * `indexed_by_sobject.get(target_table)`: a lookup whose target has no load step (hidden `__`
+    tables) gets no `after:` and generation continues (fix 7f47b5f; before, `KeyError`: D14);
   * how `Globals.__setstate__` reads the saved dependencies is a parameter (`Access`): the source
     now reads them by key (`state.get`, fix d660dab); `Access.getattr` documents the old behaviour
     (`getattr(state, …, [])` on a dict: a continued run started with an empty dependency set, D05).
@@ -78,7 +78,6 @@ deriving DecidableEq, Repr
 inductive Err where
   | outOfFuel                       -- model artefact; `sort_terminates` shows it never happens
   | valueError (table : String)     -- `table_order.index(step.table_name)`
-  | keyError (table : String)       -- `indexed_by_sobject[target_table]`
   | multipleRecordTypes (table : String)   -- DataGenError of `find_record_type_column`
 deriving DecidableEq, Repr
 
@@ -271,35 +270,23 @@ def firstInstance (ms : List (String × Mapping)) (sobj : String) : Option Nat :
 def lastStepName (ms : List (String × Mapping)) (sobj : String) : Option String :=
   (ms.reverse.find? (fun p => p.2.sfObject == sobj)).map (fun p => p.1)
 
-def addAfterLookup (ms : List (String × Mapping)) (idx : Nat) (l : Lookup) : Except Err Lookup :=
-  if l.table == "PersonContact" then .ok l
+/-- one lookup of the entry at position `idx`. `indexed_by_sobject.get(target_table)`: a target
+    that no entry loads (e.g. a hidden `__` table) is skipped (fix 7f47b5f; before, `KeyError`). The
+    post-process cannot fail any more, so it is a total function. -/
+def addAfterLookup (ms : List (String × Mapping)) (idx : Nat) (l : Lookup) : Lookup :=
+  if l.table == "PersonContact" then l
   else
     match firstInstance ms l.table, lastStepName ms l.table with
     | some fi, some ln =>
-      if fi ≥ idx then (if l.after.isSome then .ok l else .ok { l with after := some ln }) else .ok l
-    | _, _ => .error (.keyError l.table)
+      if fi ≥ idx then (if l.after.isSome then l else { l with after := some ln }) else l
+    | _, _ => l
 
-def addAfterLookups (ms : List (String × Mapping)) (idx : Nat) : List Lookup → Except Err (List Lookup)
-  | [] => .ok []
-  | l :: ls =>
-    match addAfterLookup ms idx l with
-    | .error e => .error e
-    | .ok l' =>
-      match addAfterLookups ms idx ls with
-      | .error e => .error e
-      | .ok ls' => .ok (l' :: ls')
-
-def addAfterFrom (ms : List (String × Mapping)) : Nat → List (String × Mapping) → Except Err (List (String × Mapping))
-  | _, [] => .ok []
+def addAfterFrom (ms : List (String × Mapping)) : Nat → List (String × Mapping) → List (String × Mapping)
+  | _, [] => []
   | idx, (n, m) :: rest =>
-    match addAfterLookups ms idx m.lookups with
-    | .error e => .error e
-    | .ok ls =>
-      match addAfterFrom ms (idx + 1) rest with
-      | .error e => .error e
-      | .ok rest' => .ok ((n, { m with lookups := ls }) :: rest')
+    (n, { m with lookups := m.lookups.map (addAfterLookup ms idx) }) :: addAfterFrom ms (idx + 1) rest
 
-def addAfterStatements (ms : List (String × Mapping)) : Except Err (List (String × Mapping)) :=
+def addAfterStatements (ms : List (String × Mapping)) : List (String × Mapping) :=
   addAfterFrom ms 0 ms
 
 /-! ### `mapping_from_recipe_templates` -/
@@ -327,7 +314,7 @@ def mappingFromRecipe (tables : List TableInfo) (deps : List Dep) (decls : List 
     Except Err (List (String × Mapping)) :=
   match preMapping tables deps decls with
   | .error e => .error e
-  | .ok (_, _, ms) => addAfterStatements ms
+  | .ok (_, _, ms) => .ok (addAfterStatements ms)
 
 /-! ### continuation (dependencies only) -/
 
